@@ -2,7 +2,7 @@ from pyvc.cbase import Registry
 
 
 def build_registry():
-    from . import externs, expect, spawnbase, screen, ansi, utils, transports
+    from . import externs, expect, spawnbase, screen, ansi, utils, transports, lifecycle
     reg = Registry()
     externs.register(reg)
     spawnbase.register(reg)
@@ -11,4 +11,5 @@ def build_registry():
     ansi.register(reg)
     utils.register(reg)
     transports.register(reg)
+    lifecycle.register(reg)
     return reg
